@@ -395,7 +395,7 @@ class MeshCase:
         if self.edge_of_id is None:
             return None
         if mode == "dict":
-            obj = {e: w for e, w in enumerate(wlist)}
+            obj = {e: wlist[e] for e in reversed(range(len(wlist)))}   # inserted in decreasing edge order: insertion order must not matter
         elif mode == "attr":
             obj = ctx.Attribute(float)
             for e, w in enumerate(wlist):
